@@ -370,13 +370,11 @@ func (dn *dirNode) size() int64 {
 
 // fileNode
 
-// delete removes all information from the node, decrements the reference counter of the fileNode.
-// If there is no more references, the data is deleted.
+// delete decrements the reference counter of the fileNode.
+// The data is kept : a file that has no more name can still be read and written through the handles
+// opened before its last name was removed, the memory is reclaimed when the last of them is closed.
 func (fn *fileNode) delete() {
 	fn.nlink--
-	if fn.nlink == 0 {
-		fn.data = nil
-	}
 }
 
 // fillStatFrom returns a MemInfo (implementation of fs.FileInfo) from a fileNode fn named name.
